@@ -320,6 +320,53 @@ fn visit_closure_three_instructions() {
     assert!(r.slots.contains(&slot) == !referenced);
 }
 
+fn queued_closures(r: &GlobalSlotRecycler) -> usize {
+    let mut n = 0;
+    let mut i = 0;
+    while i < r.queue.len() {
+        if matches!(r.queue[i], SteelVal::Closure(_)) {
+            n += 1;
+        }
+        i += 1;
+    }
+    n
+}
+
+#[kani::proof]
+#[kani::unwind(5)]
+fn recycler_container_arms_contract() {
+    let h = || SteelVal::Closure(closure_of(Vec::new(), None, Vec::new()));
+    let leaf = || SteelVal::IntV(1);
+    let mut r = GlobalSlotRecycler::default();
+    r.visit_hash_map(SteelHashMap(Gc::new(vec![(h(), leaf()), (leaf(), h())])));
+    assert!(queued_closures(&r) == 2, "hash-map keys and values are both walked");
+    r.queue.clear();
+    r.visit_hash_set(SteelHashSet(Gc::new(vec![leaf(), h()])));
+    assert!(queued_closures(&r) == 1);
+    r.queue.clear();
+    r.visit_immutable_vector(SteelVector(Gc::new(vec![h(), h()])));
+    assert!(queued_closures(&r) == 2);
+    r.queue.clear();
+    r.visit_list(List(Gc::new(vec![leaf(), h()])));
+    assert!(queued_closures(&r) == 1);
+    r.queue.clear();
+    r.visit_steel_struct(Gc::new(UserDefinedStruct { fields: vec![h(), leaf()] }));
+    assert!(queued_closures(&r) == 1);
+    r.queue.clear();
+    r.visit_stream(Gc::new(LazyStream { initial_value: h(), stream_thunk: h() }));
+    assert!(queued_closures(&r) == 2);
+    r.queue.clear();
+    // a dotted pair: the function sits in the cdr
+    r.visit_pair(Gc::new(Pair { car: leaf(), cdr: h() }));
+    assert!(queued_closures(&r) == 1, "the cdr of a pair is walked");
+    r.queue.clear();
+    r.visit_pair(Gc::new(Pair { car: h(), cdr: h() }));
+    assert!(queued_closures(&r) == 2);
+    r.queue.clear();
+    r.visit_boxed_value(Gc::new(MutContainer(core::cell::RefCell::new(h()))));
+    assert!(queued_closures(&r) == 1);
+}
+
 #[kani::proof]
 fn push_back_contract() {
     let mut r = GlobalSlotRecycler::default();
